@@ -185,7 +185,11 @@ func c14Scenario(c *choice.Ctx, rep *report.R, k c14Kind) {
 		d.Script(env.DialHang)
 		note("next-dial-hangs")
 	}
-	connFault := c.Deviate(len(c14Faults), "conn-fault")
+	nFaults := len(c14Faults)
+	if !k.tcp {
+		nFaults-- // a datagram socket has no flow control: "stall-write" is not a server behaviour there
+	}
+	connFault := c.Deviate(nFaults, "conn-fault")
 	fname := c14Faults[connFault]
 	srv.healthy = connFault == 0
 	connsBefore := d.NumConns()
@@ -311,6 +315,11 @@ func c14Scenario(c *choice.Ctx, rep *report.R, k c14Kind) {
 	for _, cl := range calls {
 		sleepUntil(cl.deadline)
 	}
+	for _, cl := range calls {
+		if cl.inflight() {
+			fail("missed-deadline:"+fname, fmt.Sprintf("exchange %d still running at its deadline (fault %s)", cl.idx, fname))
+		}
+	}
 	if fname == "stall-write" {
 		for ci := 0; ci < d.NumConns(); ci++ {
 			d.ImplEnd(ci).Commit()
@@ -366,17 +375,19 @@ func TestVerifC14(t *testing.T) {
 		"then 1..2 concurrent exchanges with next dial {ok, refused, hangs} and first-connection fault {%s}; <=%d faults per execution, all combinations; afterwards a healthy server; "+
 		"oracle: return by deadline (exact virtual clock), success in zero virtual time when only pooled connections are stale, waiters released in the instant their connection dies, <=7 dials per exchange, no (nil,nil), "+
 		"transport still usable afterwards, ownership audit", strings.Join(c14Faults, ","), bound)
-	for _, k := range c14Kinds() {
-		k := k
-		if rp := report.ReplayFile(); rp != nil {
-			var x struct{ Kind string }
-			rp.Decode(&x)
-			if x.Kind != k.name {
-				continue
+	bubble(t, func() {
+		for _, k := range c14Kinds() {
+			k := k
+			if rp := report.ReplayFile(); rp != nil {
+				var x struct{ Kind string }
+				rp.Decode(&x)
+				if x.Kind != k.name {
+					continue
+				}
 			}
+			st := runExplore(t, rep, bound, func(c *choice.Ctx) { c14Scenario(c, rep, k) })
+			rep.Count("executions_"+k.name, st.Executions)
 		}
-		st := runExplore(t, rep, bound, func(c *choice.Ctx) { c14Scenario(c, rep, k) })
-		rep.Count("executions_"+k.name, st.Executions)
-	}
+	})
 	rep.Sample(map[string]any{"kind": "reuse-tcp", "history": "warm=2(conns=2) idle5s fin-idle(c0) abort-idle(c1) start x1 fault=none", "expect": "exchange succeeds at once on a third connection"})
 }
